@@ -175,6 +175,8 @@ class SumAggregator:
             symbol = lit.atom.symbol
             trigger_index = None
             for next_anon_pred in self._atmost_preds:
+                if not self.domain_predicates.has_domain(next_anon_pred.pred):
+                    continue  # no chain without a domain
                 if next_anon_pred.pred == Predicate(symbol.name, len(symbol.arguments)):
                     anon_are_anonymous = True
                     for i in next_anon_pred.annotated_positions:
